@@ -4,6 +4,7 @@ import (
 	"fmt"
 	"go/token"
 	"go/types"
+	"sort"
 	"strings"
 
 	"golang.org/x/tools/go/ssa"
@@ -30,6 +31,7 @@ func isAbortCall(ins ssa.Instruction) bool {
 func runC15(c *core.Ctx) {
 	defer func() {
 		c.Share(map[string]string{"R12.1": "R15.6"}, runC12)
+		c.Share(map[string]string{"R14.4": "R15.8"}, runC14) // the handlers closed at disconnect are the ones opened for that client: per-connection variables, not shared with the accept loop
 		c.Rule("R15.7", "a handler that failed to open is not touched: where the accept loop uses the handler value on the failure edge of its constructor call, every handler constructor wired into the proxy returns the nil interface with its error", 2)
 		runR157(c, "R15.7") // the client going away makes the reply fail: that exit, too, must release the key lock
 	}()
@@ -150,6 +152,8 @@ func runC15(c *core.Ctx) {
 
 	runR153(c)
 	runR154(c)
+	c.Rule("R15.9", "a handler holding a list of backend connections closes every element of the list (the indices its Close calls can take cover 0 .. len-1)", 1)
+	checkCloseCoversAllNodes(c, "R15.9")
 	c.Rule("R15.5", "a get drains both channels of the backend handler: the loop that receives from them is left only when both are closed, and nothing returns from inside it (the handler's producer goroutine blocks forever on an unbuffered send otherwise)", 4)
 	runR155(c)
 }
@@ -747,4 +751,190 @@ func wiredHandlerConstructors(c *core.Ctx) map[*ssa.Function]bool {
 		return nil
 	}
 	return out
+}
+
+// checkCloseCoversAllNodes (R15.9): a handler that holds a list of backend connections (the cluster handler: one per
+// node) closes all of them when the client goes away. Every Close call whose receiver is selected from an element of a
+// slice field of the handler contributes the indices it can see: a constant, or the counter of the loop it sits in
+// (start .. bound). Together they must cover 0 .. len(list)-1; anything less leaves backend connections open for
+// every client that disconnects.
+func checkCloseCoversAllNodes(c *core.Ctx, rule string) {
+	n := 0
+	for _, rel := range []string{"handlers/memcached/cluster"} {
+		for _, fn := range pkgFuncs(c, rel) {
+			if fn.Name() != "Close" || fn.Signature.Recv() == nil {
+				continue
+			}
+			type span struct {
+				lo  int64 // first index
+				hi  int64 // one past the last index, relative to len when rel is set
+				rel bool
+			}
+			spans := map[string][]span{}
+			loops := ssax.Loops(fn)
+			ssax.Instrs(fn, func(ins ssa.Instruction) {
+				cc := ssax.CallOf(ins)
+				if cc == nil || !strings.HasSuffix(ssax.CalleeName(cc), ".Close") {
+					return
+				}
+				var recv ssa.Value
+				if cc.IsInvoke() {
+					recv = cc.Value
+				} else if len(cc.Args) > 0 {
+					recv = cc.Args[0]
+				}
+				// the element the receiver is selected from
+				var ia *ssa.IndexAddr
+				v := recv
+				for i := 0; i < 12 && v != nil && ia == nil; i++ {
+					switch x := v.(type) {
+					case *ssa.IndexAddr:
+						ia = x
+					case *ssa.Field:
+						v = x.X
+					case *ssa.FieldAddr:
+						v = x.X
+					case *ssa.UnOp:
+						v = x.X
+					case *ssa.MakeInterface:
+						v = x.X
+					case *ssa.ChangeInterface:
+						v = x.X
+					case *ssa.Alloc:
+						// a local copy of the element (for _, node := range list)
+						v = nil
+						if x.Referrers() != nil {
+							for _, r := range *x.Referrers() {
+								if st, ok := r.(*ssa.Store); ok && st.Addr == ssa.Value(x) {
+									v = st.Val
+								}
+							}
+						}
+					default:
+						v = nil
+					}
+				}
+				if ia == nil {
+					return
+				}
+				_, path := selPath(ia.X)
+				list := strings.Join(path, ".")
+				if list == "" {
+					return
+				}
+				if k, isC := ssax.ConstInt(ia.Index); isC {
+					spans[list] = append(spans[list], span{lo: k, hi: k + 1})
+					return
+				}
+				if l := ssax.InnermostLoop(loops, ia.Block()); l != nil && isRangeLoop(l) && strings.HasPrefix(ia.Block().Comment, "rangeindex.body") {
+					// for ... range list: every element
+					spans[list] = append(spans[list], span{lo: 0, hi: 0, rel: true})
+					return
+				}
+				// a loop counter: phi(start, phi+1) tested against len(list) (+ constant) in the loop header
+				phi, ok := ssax.Unwrap(ia.Index).(*ssa.Phi)
+				if !ok {
+					spans[list] = append(spans[list], span{lo: -1})
+					return
+				}
+				l := ssax.InnermostLoop(loops, ins.Block())
+				start := int64(-1)
+				for _, e := range phi.Edges {
+					if k, isC := ssax.ConstInt(e); isC {
+						if _, isConst := e.(*ssa.Const); isConst {
+							start = k
+						}
+					}
+				}
+				// range loops start at -1 and pre-increment: the index used is phi+1 ... handled through the comment
+				if l != nil && isRangeLoop(l) {
+					spans[list] = append(spans[list], span{lo: 0, hi: 0, rel: true})
+					return
+				}
+				if l == nil || start < 0 {
+					spans[list] = append(spans[list], span{lo: -1})
+					return
+				}
+				ifi, ok := l.Header.Instrs[len(l.Header.Instrs)-1].(*ssa.If)
+				bo, ok2 := ssa.Value(nil), false
+				if ok {
+					bo, ok2 = ifi.Cond.(*ssa.BinOp), true
+				}
+				cond, _ := bo.(*ssa.BinOp)
+				if !ok || !ok2 || cond == nil || ssax.Unwrap(cond.X) != ssa.Value(phi) || (cond.Op != token.LSS && cond.Op != token.LEQ) {
+					spans[list] = append(spans[list], span{lo: -1})
+					return
+				}
+				off := int64(0)
+				bound := ssax.Unwrap(cond.Y)
+				if b2, isB := bound.(*ssa.BinOp); isB && (b2.Op == token.ADD || b2.Op == token.SUB) {
+					if k, isC := ssax.ConstInt(b2.Y); isC {
+						off = k
+						if b2.Op == token.SUB {
+							off = -k
+						}
+						bound = ssax.Unwrap(b2.X)
+					}
+				}
+				call, isCall := bound.(*ssa.Call)
+				isLen := false
+				if isCall {
+					if b, isB := call.Call.Value.(*ssa.Builtin); isB && b.Name() == "len" {
+						_, p2 := selPath(call.Call.Args[0])
+						isLen = strings.Join(p2, ".") == list
+					}
+				}
+				if !isLen {
+					spans[list] = append(spans[list], span{lo: -1})
+					return
+				}
+				if cond.Op == token.LEQ {
+					off++
+				}
+				spans[list] = append(spans[list], span{lo: start, hi: off, rel: true})
+			})
+			var lists []string
+			for l := range spans {
+				lists = append(lists, l)
+			}
+			sort.Strings(lists)
+			for _, list := range lists {
+				n++
+				key := core.FuncName(fn) + "#closes-all:" + list
+				ss := spans[list]
+				unknown := false
+				for _, s := range ss {
+					if s.lo < 0 {
+						unknown = true
+					}
+				}
+				if unknown {
+					c.Undecided(rule, key, c.P.Pos(fn.Pos()), "a Close on an element of "+list+" uses an index that is neither a constant nor a recognised loop counter")
+					continue
+				}
+				// coverage: constants and [start, len+off) spans must chain from 0 to len
+				sort.Slice(ss, func(i, j int) bool { return ss[i].lo < ss[j].lo })
+				next, done := int64(0), false
+				for _, s := range ss {
+					if done || s.lo > next {
+						break
+					}
+					if s.rel {
+						if s.hi >= 0 {
+							done = true
+						}
+						continue
+					}
+					if s.hi > next {
+						next = s.hi
+					}
+				}
+				c.Check(done, rule, key, c.P.Pos(fn.Pos()), "the closes cover every element of "+list,
+					"the Close calls on the elements of "+list+" do not cover the whole list (a loop that starts late or stops before the last element): the backend connections left out stay open every time a client disconnects")
+			}
+		}
+	}
+	if n == 0 {
+		c.Undecided(rule, "cluster.Handler.Close#closes-all", "-", "no Close over a list of connections found in the cluster handler")
+	}
 }
